@@ -239,7 +239,13 @@ func c04gen(g *gen, tier string, w *bufio.Writer) {
 			// the client's own location also has records at a zone apex (its own SOA, or its own NS),
 			// next to the untagged ones: the client must see both kinds together
 			z0 := df.zones[g.intn(len(df.zones))].name
-			if g.bool() {
+			taggedSOA := false // two SOAs of one owner in one view: which one is served is undefined
+			for _, l := range df.lines {
+				if (strings.HasPrefix(l, "Z"+z0+",") || strings.HasPrefix(l, "Z"+z0+":")) && strings.HasSuffix(l, L) {
+					taggedSOA = true
+				}
+			}
+			if g.bool() && !taggedSOA {
 				df.lines = append(df.lines, "Z"+z0+",nsl."+z0+",hm."+z0+",,,,,,60,,"+L)
 			} else {
 				df.lines = append(df.lines, "&"+z0+","+g.ip4()+",nsl."+z0+",60,,"+L)
@@ -298,6 +304,10 @@ func frameRun(f []string) (string, string) {
 	a, va := serveRun("serve " + f[1] + " " + f[3])
 	b, vb := serveRun("serve " + f[2] + " " + f[3])
 	verdict := "ok"
+	if strings.Contains(a, "compile-error") || strings.Contains(b, "compile-error") {
+		// a file the compilers reject is not an edit to judge (shrinking produces such files)
+		return "A{" + a + "}B{" + b + "}", "-"
+	}
 	if stripAddrs(a) != stripAddrs(b) {
 		verdict = "FAIL:foreign-edit-changed-a-response"
 	}
